@@ -286,7 +286,9 @@ pub fn make_reader<'a>(arena: &'a Arena<Payload>, kind: usize, id: NodeId) -> Bo
 
 pub fn solo(arena: &Arena<Payload>, kind: usize, id: NodeId, steps: usize) -> Vec<u64> {
     let mut r = make_reader(arena, kind, id);
-    (0..steps).map(|_| r()).collect()
+    (0..steps)
+        .map(|k| std::panic::catch_unwind(std::panic::AssertUnwindSafe(|| r())).unwrap_or(0xdead_0000 + k as u64))
+        .collect()
 }
 
 #[derive(Clone, Debug)]
@@ -356,7 +358,11 @@ pub fn check_state(
             let mut pos = vec![0usize; k];
             for &r in sched {
                 stats.steps += 1;
-                let v = readers[r]();
+                // a reader that panics (e.g. a bogus "cycle" guard tripping) observes something else too
+                let v = match std::panic::catch_unwind(std::panic::AssertUnwindSafe(|| readers[r]())) {
+                    Ok(v) => v,
+                    Err(_) => !solos[group[r]][pos[r]],
+                };
                 if v != solos[group[r]][pos[r]] {
                     return Some(ReaderMismatch {
                         readers: group.iter().map(|&g| scripts[g]).collect(),
